@@ -1,0 +1,9 @@
+//go:build verif && (!amd64 || !gc || purego)
+
+package chacha20poly1305
+
+// VerifCPUHasAVX2 reports whether the assembly path exists in this build.
+func VerifCPUHasAVX2() bool { return false }
+
+// VerifSetAVX2 is a no-op in builds without the assembly path.
+func VerifSetAVX2(on bool) (prev bool) { return false }
